@@ -74,6 +74,16 @@ def generate(rng, tier, shard, nshards, mon):
             parts = rng.randint(1, 4)
             tiles.append({v: (spec["ext"][v] + parts - 1) // parts})
             divs.append({v: parts})
+            # an operand with three or more indices: bringing a rank to the top is a rotation that is not its own inverse,
+            # so every one of its ranks is tiled this way once
+            for _, idx in spec["ops"]:
+                if len(idx) >= 3:
+                    for w in idx:
+                        if w != v:
+                            parts = rng.randint(2, 3)
+                            tiles.append({w: (spec["ext"][w] + parts - 1) // parts})
+                            divs.append({w: parts})
+                    break
         yield {"spec": spec, "tilings": tiles, "divs": divs, "max_orders": 6 if tier == "quick" else 24, "oseed": rng.randrange(1 << 20)}
 
 
